@@ -88,7 +88,7 @@ class TU:
     def sd(self, n):
         if n is None:
             return {}
-        return self.side.get(n['id'] if isinstance(n, dict) else n, {})
+        return self.side.get(n.get('id') if isinstance(n, dict) else n, {})
 
     def loc(self, n):
         s = self.sd(n)
